@@ -18,6 +18,11 @@
   (`ReadBack.SameResponse`; identical when the response is in the reader's list representation);
   `C10_timeline_files` — the timeline theorem for histories in which every ceremony's previous SKR is
   what `load_skr` makes of the file its predecessor wrote.
+
+  Both carry hypotheses on the WRITTEN SKR (`WriterDomain`, `C11.Constructible`, the bundle count).  The
+  section after it ("The emitted file, from the inputs") proves those of `create_skr` from a decidable
+  predicate on what the ceremony READ (`PlainInputs` / `PlainCeremony`): `createSkr_in_writerDomain`,
+  `emitted_is_loadable_from_inputs`, `C10_timeline_files_from_inputs`.
 -/
 import Kskm.Ceremony
 import KskmProofs.C03
@@ -25,6 +30,8 @@ import KskmProofs.C08
 import KskmProofs.C09
 import KskmProofs.Lemmas.Echo
 import KskmProofs.Lemmas.C10Loadable
+import KskmProofs.Lemmas.SkrEmitted
+import KskmProofs.C05
 namespace Kskm.C10
 
 open Kskm.C03
@@ -248,7 +255,9 @@ theorem declared_negative_min_gap_refused :
   Hypotheses on the written SKR, explicit: `WriterDomain skr` and `C11.Constructible skr` — invariants
   of what the signer emits from a plain KSR and a plain configuration (identifiers, domain and signer's
   name free of markup characters, whole-second policy durations, years 1000…9999, RSA policies; the
-  pydantic invariants of `Key` / `Signature`), not proved of `create_skr` here — and the configuration
+  pydantic invariants of `Key` / `Signature`), not proved of `create_skr` in THIS section (they are in the
+  next one, from a decidable predicate on the KSR and the configuration: `createSkr_in_writerDomain`,
+  `emitted_is_loadable_from_inputs`, `C10_timeline_files_from_inputs`) — and the configuration
   coherence `response_policy.num_bundles` = number of bundles written (the request policy's bundle count
   is what `validate_request` enforced on the KSR). -/
 
@@ -445,6 +454,300 @@ theorem historyFiles_eq_history (cs : List Ceremony) (hdom : AllInDomain cs)
 
 end EmittedFile
 
+/-! ## The emitted file, from the inputs
+
+  `emitted_is_loadable` and `C10_timeline_files` ASSUME `WriterDomain skr` / `C11.Constructible skr` of what
+  a ceremony writes.  This section proves them of `create_skr`, from a DECIDABLE predicate on what the
+  ceremony read — the KSR and the configuration — and for every token, every hash function and every
+  software verifier that does not accept the empty octet string as a signature (`RejectsEmpty`; an
+  arbitrary `Verifier` may, and then `<SignatureData/>` would be written: `rejectsEmpty_needed`).
+
+  `PlainInputs req cfg`, clause by clause, and what each is needed for (lemmas: Lemmas/SkrEmitted.lean):
+
+  request header — `id`, `domain`: not empty, no `"` `<` `>` `&`, no control character (they are copied
+      into attribute values; the reader does not decode entities — F18); `serial`: `0 ≤`, at most 4300
+      digits (`str(int)` limit).
+  ZSK policy — `policyOk`: six whole-second durations in 0 s … 400 d (the writer drops microseconds, the
+      reader refuses a negative day count; 400 d is the bound of C11's domain, not of the codec), at least
+      one algorithm entry, every entry RSA with algorithm 5 / 8 / 10 and printable size and exponent (the
+      writer refuses any other kind: NotImplementedError).
+  bundles — at least one; in the loader's order (expiration, inception, id) — the request loader sorts
+      them so, and the response loader sorts again: an unsorted list would be read back permuted.
+  every bundle — `id` as above; inception and expiration whole seconds of the years 1000 … 9999 (the
+      writer drops microseconds; `%Y` is not zero-padded below 1000 — F7); at least one key (the reader's
+      `validate_signatures` and the schema ask for one).
+  every request key — `keyIdentifier` as above; `keyTag` in 0 … 65535 and `protocol = 3` (schema); flags
+      256 / 257 / 385 and an algorithm number of `AlgorithmDNSSEC` (invariants of every Python `Key`
+      object — the model's `Key` is wider; the reader constructs the object anew); an RSA exponent, if
+      the key text decodes as RSA, of at most 4300 digits (it is printed in the KSK policy).
+      NOT asked: anything about the public key TEXT, the TTL, the flags range, the algorithm being RSA,
+      the size — those follow from gates `create_skr` passed (`make_raw_rrsig` decoded and packed every
+      published key; `_ksk_signature_policy` read every published key as an RSA key).
+  every configured KSK — `label` as above (it becomes the key identifier of keys and signatures);
+      `rsa_exponent`, if set, of at most 4300 digits (`load_pkcs11_key` compared it with the token's).
+      NOT asked: anything about the token's answers.
+  KSK policy — the six durations as for the ZSK policy.  NOT asked: TTL (`make_raw_rrsig` packed it into
+      32 bits), signer name (`make_raw_rrsig` accepts "." only).
+
+  Gate used instead of a hypothesis: `validate_request`'s bundle count (`C05.count_iff`), which together
+  with `request_policy.num_bundles = response_policy.num_bundles` (configuration coherence, part of
+  `PlainCeremony`) gives the `hcount` hypothesis of `emitted_is_loadable`.  The other rules of
+  `validate_request` that would imply a clause (acceptable domain, key tag recomputed, flags 256) sit
+  behind enable flags or move the condition to another configuration field, so the clause is kept.
+
+  The real `skr_to_xml` / `response_from_xml` were run on hand-built responses at the points the proof
+  forced: an exponent of 4301 digits — `skr_to_xml` raises ValueError (int → str limit), nothing is
+  written; a sub-second inception — reads back truncated (C11's documented loss); an EMPTY
+  `SignatureData` — writes and reads back equal, so the domain's "not empty" is stricter than the tools
+  there, and `RejectsEmpty` is the price of that clause only (no real verifier accepts an empty
+  signature).  No new defect. -/
+
+section FromInputs
+open Kskm.ReadBack Kskm.C10L Kskm.Emitted
+
+/-- one request key -/
+def plainKey (k : Key) : Bool :=
+  attrTextOk k.keyIdentifier && decide (0 ≤ k.keyTag) && decide (k.keyTag ≤ 65535)
+    && decide (k.flags = 256 ∨ k.flags = 257 ∨ k.flags = 385) && decide (k.protocol = 3)
+    && algMember k.algorithm
+    && (match rsaDecode k.publicKey k.algorithm with
+        | .ok pub => printable (pub.exponent : Int)
+        | .error _ => true)
+
+/-- one request bundle -/
+def plainBundle (b : Bundle) : Bool :=
+  attrTextOk b.id && instantOk b.inception && instantOk b.expiration && !b.keys.isEmpty && b.keys.all plainKey
+
+/-- the request -/
+def plainRequest (req : Request) : Bool :=
+  attrTextOk req.id && attrTextOk req.domain && decide (0 ≤ req.serial) && printable req.serial
+    && policyOk req.zskPolicy && !req.bundles.isEmpty && req.bundles.all plainBundle
+    && bundlesSorted req.bundles
+
+/-- one entry of the `keys:` section of the configuration -/
+def plainKsk (ksk : KskKey) : Bool :=
+  attrTextOk ksk.label && (match ksk.rsaExponent with | some e => printable e | none => true)
+
+/-- the `keys:` and `ksk_policy:` sections of the configuration -/
+def plainConfig (keys : List (String × KskKey)) (pol : KskPolicy) : Bool :=
+  keys.all (fun p => plainKsk p.2)
+    && durationOk pol.signaturePolicy.publishSafety && durationOk pol.signaturePolicy.retireSafety
+    && durationOk pol.signaturePolicy.maxSignatureValidity && durationOk pol.signaturePolicy.minSignatureValidity
+    && durationOk pol.signaturePolicy.maxValidityOverlap && durationOk pol.signaturePolicy.minValidityOverlap
+
+/-- **The input-level predicate**: a plain KSR and a plain configuration (decidable). -/
+def PlainInputs (req : Request) (cfg : SignerConfig) : Prop :=
+  plainRequest req = true ∧ plainConfig cfg.kskKeys cfg.kskPolicy = true
+
+instance (req : Request) (cfg : SignerConfig) : Decidable (PlainInputs req cfg) := by
+  unfold PlainInputs; infer_instance
+
+theorem plainKey_good (k : Key) (h : plainKey k = true) : KeyGood k ∧ algMember k.algorithm = true := by
+  simp only [plainKey, Bool.and_eq_true, decide_eq_true_eq] at h
+  obtain ⟨⟨⟨⟨⟨⟨h1, h2⟩, h3⟩, h4⟩, h5⟩, h6⟩, h7⟩ := h
+  refine ⟨⟨h1, h2, h3, h4, h5, ?_⟩, h6⟩
+  intro pub hpub
+  rw [hpub] at h7
+  exact h7
+
+theorem plainBundle_good (b : Bundle) (h : plainBundle b = true) : BundleGood b := by
+  simp only [plainBundle, Bool.and_eq_true, List.all_eq_true, Bool.not_eq_true', List.isEmpty_eq_false_iff] at h
+  obtain ⟨⟨⟨⟨h1, h2⟩, h3⟩, h4⟩, h5⟩ := h
+  exact ⟨h1, h2, h3, h4, fun k hk => plainKey_good k (h5 k hk)⟩
+
+theorem plainRequest_good (req : Request) (h : plainRequest req = true) : RequestGood req := by
+  simp only [plainRequest, Bool.and_eq_true, List.all_eq_true, Bool.not_eq_true', List.isEmpty_eq_false_iff,
+    decide_eq_true_eq] at h
+  obtain ⟨⟨⟨⟨⟨⟨⟨h1, h2⟩, h3⟩, h4⟩, h5⟩, h6⟩, h7⟩, h8⟩ := h
+  exact ⟨h1, h2, h3, h4, h5, h6, fun b hb => plainBundle_good b (h7 b hb), h8⟩
+
+theorem plainConfig_good (cfg : SignerConfig) (h : plainConfig cfg.kskKeys cfg.kskPolicy = true) : ConfigGood cfg := by
+  simp only [plainConfig, Bool.and_eq_true, List.all_eq_true] at h
+  obtain ⟨⟨⟨⟨⟨⟨h0, h1⟩, h2⟩, h3⟩, h4⟩, h5⟩, h6⟩ := h
+  refine ⟨?_, h1, h2, h3, h4, h5, h6⟩
+  intro p hp
+  have := h0 p hp
+  simp only [plainKsk, Bool.and_eq_true] at this
+  refine ⟨this.1, ?_⟩
+  intro e he
+  have h2 := this.2
+  rw [he] at h2
+  exact h2
+
+/-- **What `create_skr` emits from plain inputs lies in the writer's domain and is constructible** — for
+    EVERY token, every starting state, every hash function and every software verifier that rejects the
+    empty signature; together with the bundle count.  So the two hypotheses of `C11.C11_roundtrip` /
+    `emitted_is_loadable` hold of every SKR a ceremony on plain inputs can write. -/
+theorem createSkr_in_writerDomain (ext : Externals) (mods : List P11Module) (cfg : SignerConfig) (req : Request)
+    (skr : Response) (tok : Token) (s s' : TokState)
+    (hp : PlainInputs req cfg) (hv : RejectsEmpty ext.verify)
+    (h : createSkr ext mods cfg req tok s = (.ok skr, s')) :
+    WriterDomain skr ∧ C11.Constructible skr ∧ skr.bundles.length = req.bundles.length :=
+  createSkr_in_domain hv (plainRequest_good req hp.1) (plainConfig_good cfg hp.2) h
+
+/-- **`RejectsEmpty` cannot be dropped**: the example ceremony below, against a token that answers every
+    `C_Sign` with the empty octet string and a verifier that accepts everything, passes every gate and
+    writes an SKR with an empty `SignatureData` — outside the writer's domain.  (No real scheme has such a
+    verifier.) -/
+theorem rejectsEmpty_needed :
+    ∃ (ext : Externals) (mods : List P11Module) (cfg : SignerConfig) (req : Request) (skr : Response) (tok : Token)
+      (s' : TokState), PlainInputs req cfg ∧ createSkr ext mods cfg req tok {} = (.ok skr, s') ∧ ¬ WriterDomain skr := by
+  let ext : Externals := { hash := fun _ d => some d, verify := fun _ _ _ _ => .valid }
+  let tok : Token := fun _ op =>
+    match op with
+    | .findObjects _ _ _ => .handles [5]
+    | .getAttr _ _ _ ["KEY_TYPE"] => .attrs [.num 0]
+    | .getAttr _ _ _ ["MODULUS"] => .attrs [.bytes [0x80, 1]]
+    | .getAttr _ _ _ ["PUBLIC_EXPONENT"] => .attrs [.bytes [1, 0, 1]]
+    | .sign .. => .sig []
+    | _ => .ok
+  let mods : List P11Module := [{ label := "hsm", path := "m", slots := [0], sessions := [0] }]
+  let cfg : SignerConfig :=
+    { kskKeys := [("k1", { label := "ksk", algorithm := 8, validFrom := 0, rsaSize := some 16,
+                           rsaExponent := some 65537, hashUsingHsm := some true })]
+      actions := [(1, { publish := ["k1"], sign := ["k1"] })], responsePolicy := { numBundles := 1 } }
+  let req : Request :=
+    { id := "req-1", serial := 1, domain := ".",
+      zskPolicy := { algorithms := [{ kind := .rsa, bits := 2048, algorithm := 8, exponent := some 65537 }] },
+      bundles := [⟨"b1", 1700000000000000, 1701000000000000, [⟨"zsk", 2, 172800, 256, 3, 8, "AwEAAg=="⟩], [], none⟩] }
+  have key : (match createSkr ext mods cfg req tok {} with
+      | (.ok skr, _) => decide (PlainInputs req cfg) && !writerDomain skr
+      | _ => false) = true := by decide +kernel
+  cases hrun : createSkr ext mods cfg req tok {} with
+  | mk r s' =>
+    cases r with
+    | error e => rw [hrun] at key; cases key
+    | ok skr =>
+      rw [hrun] at key
+      simp only [Bool.and_eq_true, decide_eq_true_eq, Bool.not_eq_true'] at key
+      exact ⟨ext, mods, cfg, req, skr, tok, s', key.1, hrun, by unfold WriterDomain; rw [key.2]; simp⟩
+
+/-- what a ceremony read, as far as the emitted file depends on it: a plain KSR (if one was parsed), a
+    plain configuration, and one bundle count in the request and response policies -/
+def plainCeremony (a : CeremonyArgs) : Bool :=
+  (match a.ksr with
+    | some (.ok req) => plainRequest req
+    | _ => true)
+    && plainConfig a.kskKeys a.kskPolicy
+    && decide (a.requestPolicy.numBundles = a.responsePolicy.numBundles)
+
+def PlainCeremony (a : CeremonyArgs) : Prop := plainCeremony a = true
+
+instance (a : CeremonyArgs) : Decidable (PlainCeremony a) := by unfold PlainCeremony; infer_instance
+
+/-- the predicate does not look at the previous SKR -/
+theorem plainCeremony_prev (a : CeremonyArgs) (p : Option (Res Response)) :
+    PlainCeremony { a with prev := p } ↔ PlainCeremony a := Iff.rfl
+
+/-- `PlainCeremony` is `PlainInputs` of the request and the configuration `ksrsigner` hands to
+    `create_skr` (`signerConfigOf`), for whatever schema was selected -/
+theorem plainCeremony_inputs (a : CeremonyArgs) (h : PlainCeremony a) (req : Request) (hk : a.ksr = some (.ok req))
+    (actions : List (Nat × SchemaAction)) :
+    PlainInputs req (signerConfigOf a actions) ∧ a.requestPolicy.numBundles = a.responsePolicy.numBundles := by
+  simp only [PlainCeremony, plainCeremony, hk, Bool.and_eq_true, decide_eq_true_eq] at h
+  exact ⟨⟨h.1.1, h.1.2⟩, h.2⟩
+
+/-- **What a ceremony on plain inputs writes meets every hypothesis of `emitted_is_loadable`.** -/
+theorem written_in_writerDomain (ext : Externals) (args : CeremonyArgs) (t : Token) (s : CerState) (skr : Response)
+    (hs : writes s = []) (hw : writes (ksrsigner ext args t s).2 = [.write skr])
+    (hp : PlainCeremony args) (hv : RejectsEmpty ext.verify) :
+    WriterDomain skr ∧ C11.Constructible skr ∧ (skr.bundles.length : Int) = args.responsePolicy.numBundles := by
+  obtain ⟨_, skr', hwr, g⟩ := write_only_if_gates ext args t s hs (by rw [hw]; simp)
+  have hb : skr' = skr := by
+    rw [hw] at hwr
+    simp only [List.cons.injEq, Event.write.injEq, and_true] at hwr
+    exact hwr.symm
+  subst hb
+  obtain ⟨actions, req, mods, ts, ts', _, hksr, hcreate⟩ := g.signed
+  obtain ⟨_, req', _, hksr', hvalid⟩ := g.ksr_valid
+  rw [hksr] at hksr'
+  simp only [Option.some.injEq, Except.ok.injEq] at hksr'
+  subst hksr'
+  obtain ⟨hin, hnum⟩ := plainCeremony_inputs args hp req hksr actions
+  obtain ⟨hd, hc, hlen⟩ := createSkr_in_writerDomain ext mods _ req skr' t ts ts' hin hv hcreate
+  refine ⟨hd, hc, ?_⟩
+  have hcount : (req.bundles.length : Int) = args.requestPolicy.numBundles :=
+    (C05.count_iff req args.requestPolicy).mp ((C05.validateRequest_ok_iff _ _ _ _).mp hvalid).2.2.2.2.1
+  rw [hlen, hcount, hnum]
+
+/-- **Every SKR emitted from plain inputs is loadable, and loads to the written response** —
+    `emitted_is_loadable` with its three hypotheses on the OUTPUT replaced by the decidable predicate on
+    the INPUTS: for every token, if a ceremony that read a plain KSR under a plain configuration writes
+    `skr`, then `skr_to_xml skr` is a text which `load_skr` (size gate, the repository's reader, the glue,
+    `validate_response`) accepts, returning the written response. -/
+theorem emitted_is_loadable_from_inputs (ext : Externals) (args : CeremonyArgs) (t : Token) (s : CerState)
+    (skr : Response) (hs : writes s = []) (hw : writes (ksrsigner ext args t s).2 = [.write skr])
+    (hp : PlainCeremony args) (hv : RejectsEmpty ext.verify) :
+    ∃ text, skrToXml skr = .ok text ∧
+      (∀ f : Xml.FileOracle, Holds f text →
+        (Xml.loadSkr Xml.pyClasses Xml.pySwitches Xml.pyGlueSwitches ext.verify f args.responsePolicy).result
+          = .done (.ok (C11.normalise skr))) ∧
+      loadSkrGate ext.verify (C11.normalise skr) args.responsePolicy = .ok () ∧
+      SameResponse (C11.normalise skr) skr ∧ (Canonical skr → C11.normalise skr = skr) := by
+  obtain ⟨hd, hc, hcount⟩ := written_in_writerDomain ext args t s skr hs hw hp hv
+  exact emitted_is_loadable_current_tree ext args t s skr hs hw hd hc hcount
+
+/-- … and the next ceremony's "load + validate previous SKR" stage accepts what the file yields -/
+theorem emitted_passes_stagePrev_from_inputs (ext : Externals) (args next : CeremonyArgs) (t : Token) (s : CerState)
+    (skr : Response) (hs : writes s = []) (hw : writes (ksrsigner ext args t s).2 = [.write skr])
+    (hp : PlainCeremony args) (hv : RejectsEmpty ext.verify)
+    (hpol : next.responsePolicy = args.responsePolicy) (hprev : next.prev = some (.ok (C11.normalise skr))) :
+    stagePrev ext next = .ok (some (C11.normalise skr)) := by
+  obtain ⟨hd, hc, hcount⟩ := written_in_writerDomain ext args t s skr hs hw hp hv
+  exact emitted_passes_stagePrev ext args next t s skr hs hw hd hc hcount hpol hprev
+
+/-- **What `historyFiles` feeds forward is what `load_skr` returns**: whatever previous SKR a ceremony on
+    plain inputs was run with, the SKR it writes, as a file, loads — under that ceremony's response policy
+    and verifier — to `C11.normalise skr`, the value the next ceremony of `historyFiles` receives. -/
+theorem written_file_loads (c : Ceremony) (prev : Option Response) (skr : Response)
+    (hp : PlainCeremony c.args) (hv : RejectsEmpty c.ext.verify) (hw : written c prev = some skr) :
+    ∃ text, skrToXml skr = .ok text ∧
+      (∀ f : Xml.FileOracle, Holds f text →
+        (Xml.loadSkr Xml.pyClasses Xml.pySwitches Xml.pyGlueSwitches c.ext.verify f c.args.responsePolicy).result
+          = .done (.ok (C11.normalise skr))) ∧
+      SameResponse (C11.normalise skr) skr := by
+  unfold written at hw
+  simp only at hw
+  have hwr : writes (ksrsigner c.ext { c.args with prev := prev.map .ok } c.tok {}).2 = [.write skr] := by
+    split at hw
+    · rename_i s heq
+      simp only [Option.some.injEq] at hw
+      subst hw; exact heq
+    · simp at hw
+  obtain ⟨text, h1, h2, _, h4, _⟩ := emitted_is_loadable_from_inputs c.ext _ c.tok {} skr rfl hwr
+    ((plainCeremony_prev c.args _).mpr hp) hv
+  exact ⟨text, h1, h2, h4⟩
+
+/-- every ceremony of the history read plain inputs and verifies with a verifier that rejects the empty
+    signature -/
+def AllPlain (cs : List Ceremony) : Prop :=
+  ∀ c ∈ cs, PlainCeremony c.args ∧ RejectsEmpty c.ext.verify
+
+/-- the input-level predicate implies the output-level one of `C10_timeline_files` -/
+theorem allInDomain_of_plain (cs : List Ceremony) (h : AllPlain cs) : AllInDomain cs := by
+  intro c hc prev skr hw
+  obtain ⟨hp, hv⟩ := h c hc
+  unfold written at hw
+  simp only at hw
+  have hwr : writes (ksrsigner c.ext { c.args with prev := prev.map .ok } c.tok {}).2 = [.write skr] := by
+    split at hw
+    · rename_i s heq
+      simp only [Option.some.injEq] at hw
+      subst hw; exact heq
+    · simp at hw
+  exact (written_in_writerDomain c.ext _ c.tok {} skr rfl hwr ((plainCeremony_prev c.args _).mpr hp) hv).1
+
+/-- **C10 through the files, from the inputs.**  For EVERY sequence of ceremonies, each on a plain KSR and
+    a plain configuration and each reading, as its previous SKR, the file the last successful one wrote:
+    the SKRs written along the way form a chain of neighbours.  No hypothesis on any written SKR is left;
+    that the file of each successful ceremony does load, to the response `historyFiles` feeds forward, is
+    `emitted_is_loadable_from_inputs`. -/
+theorem C10_timeline_files_from_inputs (cs : List Ceremony) (a : Response) (hpol : AllTimeline cs)
+    (hplain : AllPlain cs) : Chained a (historyFiles (some a) cs) :=
+  C10_timeline_files cs a hpol (allInDomain_of_plain cs hplain)
+
+end FromInputs
+
 /-! ## Non-vacuity of the section above: a concrete ceremony -/
 
 section Example
@@ -534,6 +837,43 @@ example : ∃ skr text, written exCeremony none = some skr ∧ skrToXml skr = .o
 example (text : String) (h : text.toList.length ≤ KskmGen.maxSkrSize) :
     Holds { statSize := text.toList.length, read := fun _ => [], decode := fun _ => some text.toList } text :=
   ⟨h, rfl⟩
+
+/-- **the example ceremony satisfies the input-level predicate** (so `createSkr_in_writerDomain`,
+    `emitted_is_loadable_from_inputs` and `C10_timeline_files_from_inputs` are not vacuous): its KSR and
+    configuration are plain, the two bundle counts agree, its verifier rejects the empty signature -/
+theorem exCeremony_plain : PlainCeremony exArgs ∧ PlainInputs exReq (signerConfigOf exArgs []) ∧
+    Emitted.RejectsEmpty exExt.verify :=
+  ⟨by decide +kernel, by decide +kernel, fun _ _ _ h => by simp [exExt] at h⟩
+
+/-- `emitted_is_loadable_from_inputs` applied to that run — nothing is assumed of the written SKR -/
+example : ∃ skr text, written exCeremony none = some skr ∧ skrToXml skr = .ok text ∧
+    (∀ f : Xml.FileOracle, Holds f text →
+      (Xml.loadSkr Xml.pyClasses Xml.pySwitches Xml.pyGlueSwitches exExt.verify f exArgs.responsePolicy).result
+        = .done (.ok (C11.normalise skr))) ∧
+    SameResponse (C11.normalise skr) skr := by
+  have h := exCeremony_writes
+  cases hw : written exCeremony none with
+  | none => rw [hw] at h; cases h
+  | some skr =>
+    have hwr : writes (ksrsigner exExt exArgs exTok {}).2 = [.write skr] := by
+      unfold written at hw
+      simp only [Option.map] at hw
+      split at hw
+      · rename_i s heq
+        simp only [Option.some.injEq] at hw
+        subst hw; exact heq
+      · simp at hw
+    obtain ⟨text, h1, h2, _, h4, _⟩ :=
+      emitted_is_loadable_from_inputs exExt exArgs exTok {} skr rfl hwr exCeremony_plain.1 exCeremony_plain.2.2
+    exact ⟨skr, text, rfl, h1, h2, h4⟩
+
+/-- a history of that ceremony repeated meets `AllPlain` (the second run is refused as a replay; the
+    predicate is about what each ceremony READ) -/
+example : AllPlain [exCeremony, exCeremony] := by
+  intro c hc
+  simp only [List.mem_cons, List.not_mem_nil, or_false, or_self] at hc
+  subst hc
+  exact ⟨exCeremony_plain.1, exCeremony_plain.2.2⟩
 
 end Example
 
